@@ -192,7 +192,8 @@ func genIndependent(r *prng, st map[string]int) ([]string, *docInfo, []StaticVar
 	}
 	n := 2 + r.intn(3)
 	var rules []string
-	lits := []string{"a", "xyz", "12345678", "123456789", "abcdefghijklmnopq", "0123456789abcdef0123456789abcdefX"}
+	lits := []string{"", "a", "xyz", "12345678", "123456789", "abcdefghijklmnopq", "0123456789abcdef0123456789abcdefX"}
+	cvars := []string{"cvx", "cvy"}
 	for i := 0; i < n; i++ {
 		var s string
 		switch r.intn(8) {
@@ -207,8 +208,11 @@ func genIndependent(r *prng, st map[string]int) ([]string, *docInfo, []StaticVar
 		default:
 			s = g.source().text
 		}
-		if i == n-1 && r.chance(1, 3) {
-			rules = append(rules, "ctx.cvx = "+pick(r, []string{`"ctxlit"`, "jso.s", "77"}))
+		if len(cvars) > 0 && r.chance(1, 3) {
+			// context variables hold a pointer to their value: the empty
+			// literal and short literals are the interesting ones
+			rules = append(rules, "ctx."+cvars[0]+" = "+pick(r, []string{`"ctxlit"`, "jso.s", "77", `""`, `''`, `"c"`}))
+			cvars = cvars[1:]
 			continue
 		}
 		rules = append(rules, dsts[i].text+" = "+s)
@@ -253,7 +257,7 @@ func faultSweep(base Job, maxK int) []*ICase {
 }
 
 func canFail(ev string) bool {
-	return strings.HasPrefix(ev, "cb:") || strings.HasPrefix(ev, "get:") || strings.HasPrefix(ev, "mod:")
+	return strings.HasPrefix(ev, "cb:") || strings.HasPrefix(ev, "get:") || strings.HasPrefix(ev, "mod:") || strings.HasPrefix(ev, "cond:")
 }
 
 // errorStops: with call k failing, the error is the injected one and the trace
@@ -266,9 +270,9 @@ func errorStops(free, c *ICase, sum *Summary) {
 		return
 	}
 	if !canFail(ft[k]) {
-		// condition helpers have no error result: the run must equal the fault-free one
+		// cond-OK helpers have no way to fail: the run must equal the fault-free one
 		if !reflect.DeepEqual(o, free.Obs[0]) {
-			addFail(sum, "failure index names a condition helper (cannot fail) but the run differs from the fault-free run", c, free.Obs[0], o)
+			addFail(sum, "failure index names a cond-OK helper (cannot fail) but the run differs from the fault-free run", c, free.Obs[0], o)
 		}
 		return
 	}
@@ -332,7 +336,7 @@ func init() {
 						for _, k := range p {
 							ls = append(ls, rules[k])
 						}
-						pending = append(pending, singleJob(fmt.Sprint("perm ", p), Job{Prog: strings.Join(ls, "\n") + "\n", doc: d.doc, Statics: statics, Fail: -1, GetVars: []string{"cvx"}}))
+						pending = append(pending, singleJob(fmt.Sprint("perm ", p), Job{Prog: strings.Join(ls, "\n") + "\n", doc: d.doc, Statics: statics, Fail: -1, GetVars: []string{"cvx", "cvy"}}))
 					}
 				}
 				c := pending[0]
@@ -575,10 +579,15 @@ func genCallsJob(r *prng, st map[string]int) Job {
 			}
 			g.emit(g.dest().text + " = " + src.text + chain)
 		case 5:
-			g.emit(g.dest().text + " = " + coal())
+			chain := ""
+			for k, m := 0, r.intn(3); k < m; k++ {
+				chain += "|" + pick(r, []string{"upper()", "suffix(" + args(1) + ")", "default(" + arg() + ")", "ifThen(" + arg() + ")"})
+			}
+			g.emit(g.dest().text + " = " + coal() + chain)
 		case 6:
-			// (coalesce groups are not part of the condition syntax)
-			g.emit("if ns::eq(" + g.source().text + ", " + g.source().text + ") {")
+			// a condition helper gets its arguments like any other call
+			// (coalesce groups included; they are not part of the comparison syntax)
+			g.emit("if " + pick(r, []string{"ns::eq", "eq"}) + "(" + args(2) + ") {")
 			g.emit("probe(" + args(2) + ")")
 			g.emit("}")
 		case 7:
@@ -606,7 +615,12 @@ func genCtxVarJob(r *prng, o genOpts, st map[string]int) Job {
 	n := 4 + r.intn(5)
 	for i := 0; i < n; i++ {
 		nm := pick(r, names)
-		switch r.intn(8) {
+		switch r.intn(10) {
+		case 8, 9:
+			// rebinding from a source that resolves to nothing: the latest
+			// binding wins all the same (the name now reads nil)
+			g.emit("ctx." + nm + " = " + pick(r, []string{"nosuchvar", "st.Nope", "st.Finance.Nope", "ivar.x", "nosuch.path"}))
+			g.emit("probe(\"after-nil\", " + nm + ")")
 		case 0:
 			g.emit("ctx." + nm + " = " + g.strLit())
 		case 1:
@@ -668,6 +682,10 @@ func genMalformedJob(r *prng, st map[string]int) Job {
 	j := Job{Prog: strings.Join(g.lines, "\n") + "\n", doc: d.doc, Statics: g.statics, Fail: -1}
 	if r.chance(1, 5) {
 		j.NoObj = true
+	}
+	if r.chance(1, 8) {
+		// nothing bound at all: what a program meets on a new or just reset context
+		j.NoVars = true
 	}
 	// documents with wrong types now and then
 	if r.chance(1, 4) {
